@@ -280,6 +280,7 @@ def fmm_campaign(run, name, consts, workers=1, timeout=1500, variant="plain", ca
     scn = [r for r in res.lines if r.get("k") == "scn"]
     binp = need(build("replay_fmm_%d_%d_%d%s%s" % (consts["Dim"], int(consts["Periodic"]), cap, "_asan" if variant == "asan" else "", ("_tsmwrap%d" % tsmwrap) if tsmwrap else ""), "replay_fmm.cpp",
                       ["DIMV=%d" % consts["Dim"], "PERIODICV=%d" % int(consts["Periodic"]), "CAPV=%d" % cap] + (["TSMWRAPV=%d" % tsmwrap] if tsmwrap else []), variant=variant), run)
+    _replay_info[name] = {"kind": "fmm", "cap": cap, "variant": variant, "tsmwrap": tsmwrap}
     pool = sorted(consts["Pool"])
     recs = [fmm_record(r, pool, (i + run.seed) % NVARIANTS) for i, r in enumerate(scn)]
     nchunks = max(1, min(vlib.NCPU, len(recs) // 200))
@@ -307,8 +308,12 @@ def fmm_campaign(run, name, consts, workers=1, timeout=1500, variant="plain", ca
     return list(zip(scn, recs)), mism
 
 
+_replay_info = {}       # campaign name -> how to re-execute one of its scenarios (which harness binary, with which build options)
+
+
 def report_mismatches(run, pid, name, pairs, mism, kinds=None):
     kinds = KINDS[pid] if kinds is None else kinds
+    info = _replay_info.get(name, {"kind": "fmm"})
     byrec = {}
     for kind, key, text in mism:
         if kind not in kinds and kind != "Sanitizer":
@@ -322,8 +327,13 @@ def report_mismatches(run, pid, name, pairs, mism, kinds=None):
             if scenario_key(r, line) == base:
                 rec = line
                 break
-        replay = run.write_replay(kind + "-" + base, {"kind": "fmm", "config": name, "record": rec, "mismatch": kind, "text": text,
-                                                       "dim": pairs[0][0]["dim"] if pairs else None, "periodic": pairs[0][0]["periodic"] if pairs else None})
+        obj = {"config": name, "record": rec, "mismatch": kind, "text": text,
+               "dim": pairs[0][0]["dim"] if pairs else None, "periodic": pairs[0][0]["periodic"] if pairs else None}
+        obj.update(info)
+        if info.get("kind") == "realkern" and rec is not None:      # the comparison needs every grouping of the occupancy
+            occ = rec.split(" ")
+            obj["records"] = [l for _, l in pairs if l.split(" ")[5:5 + 1 + int(l.split(" ")[5])] == occ[5:5 + 1 + int(occ[5])]]
+        replay = run.write_replay(kind + "-" + base, obj)
         run.violation(kind + ":" + base, text, replay)
 
 
@@ -483,6 +493,52 @@ def check_c02(run):
     run.assumptions += FMM_ASSUME + ["OpenMP executors are covered by C03's check; Hilbert ordering only by C11 (known finding)"]
 
 
+def realkernel_stage(run, pid, kinds):
+    """The shipped floating-point kernels (FRotationKernel P=6, FUnifKernel order 4) on TLC's 3-D scenarios: results equal to rounding over all
+    groupings of one occupancy (C08) and between the sequential executor and the OpenMP executor under deferred mock schedules (C03)."""
+    q = run.tier == "quick"
+    cfgs = [("real-3d-h3", fmm_constants(3, 3, POOL_3D_H3[:5 if q else 7], bss=(1, 2, 3, 20), stops=(2,) if q else (1, 2))),
+            ("real-3d-h4", fmm_constants(3, 4, POOL_3D_H4[:4 if q else 6], bss=(1, 2, 5, 20)))]
+    if not q:
+        cfgs.append(("real-3d-h3-multi", fmm_constants(3, 3, POOL_3D_H3[:4], maxper=2, bss=(1, 2, 20))))
+    binp = need(build("realkern", "realkern.cpp", ["DIMV=3", "PERIODICV=0", "CAPV=64"], extra=("-lfftw3", "-lfftw3f")), run)
+    for name, consts in cfgs:
+        memo_key = json.dumps({k: (sorted(v) if isinstance(v, (set, frozenset)) else v) for k, v in consts.items()}, sort_keys=True)
+        with _scn_memo_lock:
+            res = _scn_memo.get((id(run), memo_key))
+        if res is None:
+            res = tlc_sharded("Fmm", consts, FMM_INVS, ["WriteSets"], 8, 1, 1500, pid + "-" + name)
+            run.add_tlc(pid + "-" + name, res, note="scenario generation for the floating-point kernels: Dim=3 Height=%s pool=%d bs=%s" % (consts["Height"], len(consts["Pool"]), sorted(consts["BlockSizes"])))
+            with _scn_memo_lock:
+                _scn_memo[(id(run), memo_key)] = res
+        if res.violated:
+            run.machinery_errors.append("TLC: %s violated in %s (log %s)" % (res.violated, name, res.logpath))
+            continue
+        scn = [r for r in res.lines if r.get("k") == "scn"]
+        pool = sorted(consts["Pool"])
+        byocc = {}
+        for i, r in enumerate(scn):
+            byocc.setdefault((tuple(r["sparts"]), r["stop"]), []).append(fmm_record(r, pool, len(byocc) % 2))       # one box per occupancy
+        occs = list(byocc.values())
+        nchunks = max(1, min(vlib.NCPU, len(occs) // 8))
+        chunks = [[rec for o in occs[i::nchunks] for rec in o] for i in range(nchunks)]
+        with ThreadPoolExecutor(max_workers=nchunks) as ex:
+            outs = list(ex.map(lambda ch: run_bin(binp, [], stdin_text="\n".join(ch) + "\n", timeout=1500), chunks))
+        mism, checks = [], 0
+        for rc, out, err in outs:
+            m, summary = parse_harness_output(out)
+            if summary is None or rc not in (0, 1, 3) or "HARNESS-ERROR" in out + err:
+                raise vlib.HarnessError("realkern failed in %s (exit %s): %s" % (name, rc, (err or out)[-400:]))
+            checks += summary.get("checks", 0)
+            mism += m
+        run.add_harness(pid + "-" + name, {"scenarios": len(scn), "occupancies": len(occs), "checks": checks, "mismatches": len(mism)}, 0)
+        run.coverage["traces_validated_against_impl"] += len(scn)
+        run.coverage["evaluations"] += checks
+        recs = [rec for o in occs for rec in o]
+        _replay_info[pid + "-" + name] = {"kind": "realkern"}
+        report_mismatches(run, pid, pid + "-" + name, list(zip(scn, recs)), [(k, re.sub(r"-(lifo|random)-\d+$", "", key), "%s [%s]" % (t, key)) for k, key, t in mism], kinds)
+
+
 @check("C08", "model_checking")
 def check_c08(run):
     # the automatic block size (and TBFMM_BLOCK_SIZE) must behave like an explicit one: counting-kernel cells of the configuration matrix
@@ -499,6 +555,8 @@ def check_c08(run):
     pairs += run_fmm_configs(run, "C08", [("per-1d-h3-top", fmm_constants(1, 3, range(4), periodic=True, maxparts=3, stops=(1,), bss=(1, 2, 3, 20), hists=("ptop",), aboves=(0, 1) if q else (0, 1, 2))),
                                           ("per-2d-h2-top", fmm_constants(2, 2, range(4), periodic=True, maxparts=2 if q else 3, stops=(1,), bss=(1, 2, 3, 20), hists=("ptop",), aboves=(0,) if q else (0, 1))),
                                           ("per-2d-h3-top", fmm_constants(2, 3, [0, 5, 10, 15], periodic=True, maxparts=2, stops=(1,), bss=(1, 2, 3, 20), hists=("ptop",), aboves=(0,)))], cap=1024)
+    # "equal to rounding for floating-point kernels": the shipped rotation and uniform kernels over all groupings of TLC's 3-D occupancies
+    realkernel_stage(run, "C08", ["GroupingIndependent", "Crash"])
     # the state digests, the elementary-interaction digest and the counters must be identical for all groupings of one occupancy
     groups = {}
     for r, line in pairs:
@@ -734,6 +792,7 @@ def omp_campaign(run, name, consts, tier, variant="plain", graphs=24, max_graph_
     if limit:
         scn = sorted(scn, key=lambda r: -len(r["sparts"]))[:limit]
     binp = need(task_replay_binary(consts["Dim"], consts["Periodic"], cap, variant, runtime), run)
+    _replay_info[name] = {"kind": "task", "cap": cap, "variant": variant, "runtime": runtime, "tier": tier}
     pool = sorted(consts["Pool"])
     recs = [fmm_record(r, pool, (i + run.seed) % NVARIANTS) for i, r in enumerate(scn)]
     nchunks = max(1, min(vlib.NCPU, len(recs) // 40))
@@ -973,6 +1032,8 @@ def check_c03(run):
     for name, outs in results:
         for pairs, mism in outs:
             report_mismatches(run, "C03", "C03-" + name, pairs, mism, C03_KINDS)
+    # "to rounding otherwise": the shipped floating-point kernels through the OpenMP executor under deferred schedules vs the sequential executor
+    realkernel_stage(run, "C03", ["SameAsSequential", "Crash"])
     # code -> spec: kernel-call traces of the OpenMP executors under seeded random schedules must respect the dataflow guards of Fmm.tla
     trace_campaign(run, "C03", run.tier, modes=(0, 1), events=4)
     # lifetime of captured variables: the same schedules on the AddressSanitizer build (detect_stack_use_after_return)
@@ -1345,8 +1406,28 @@ def cmd_replay(args):
         rc, out, errtxt = run_bin(path, [os.environ.get("VERIF_SEED", "1"), 30], env={"OMP_NUM_THREADS": "4"})
         print(out[-3000:], errtxt[-1000:])
         return 1 if rc != 0 else 0
+    if obj.get("kind") == "task":
+        binp, err = task_replay_binary(obj["dim"], obj["periodic"], obj.get("cap", 64), obj.get("variant", "plain"), obj.get("runtime", "omp"))
+        if binp is None:
+            log("harness does not compile: " + str(err))
+            return 2
+        rc, out, errtxt = run_bin(binp, ["thorough"] if obj.get("tier") == "thorough" else [], stdin_text=obj["record"] + "\n", timeout=900)
+        print(out[-3000:], errtxt[-1500:])
+        mism, summary = parse_harness_output(out)
+        return 1 if mism or rc not in (0,) else 0
+    if obj.get("kind") == "realkern":
+        binp, err = build("realkern", "realkern.cpp", ["DIMV=3", "PERIODICV=0", "CAPV=64"], extra=("-lfftw3", "-lfftw3f"))
+        if binp is None:
+            log("harness does not compile: " + str(err))
+            return 2
+        rc, out, errtxt = run_bin(binp, [], stdin_text="\n".join(obj.get("records") or [obj["record"]]) + "\n", timeout=900)
+        print(out[-3000:], errtxt[-1500:])
+        mism, summary = parse_harness_output(out)
+        return 1 if mism or rc not in (0,) else 0
     if obj.get("kind") == "fmm":
-        binp, err = build("replay_fmm_%d_%d_64" % (obj["dim"], int(obj["periodic"])), "replay_fmm.cpp", ["DIMV=%d" % obj["dim"], "PERIODICV=%d" % int(obj["periodic"]), "CAPV=64"])
+        cap, variant, tsmwrap = obj.get("cap", 64), obj.get("variant", "plain"), obj.get("tsmwrap", 0)
+        binp, err = build("replay_fmm_%d_%d_%d%s%s" % (obj["dim"], int(obj["periodic"]), cap, "_asan" if variant == "asan" else "", ("_tsmwrap%d" % tsmwrap) if tsmwrap else ""), "replay_fmm.cpp",
+                          ["DIMV=%d" % obj["dim"], "PERIODICV=%d" % int(obj["periodic"]), "CAPV=%d" % cap] + (["TSMWRAPV=%d" % tsmwrap] if tsmwrap else []), variant=variant)
         if binp is None:
             log("harness does not compile: " + str(err))
             return 2
